@@ -16,7 +16,7 @@ pub const DEF: PropDef = PropDef {
     replay,
     level: "fault_enumeration",
     rule: "fault enumeration: (handshake string, suite, message index i, alteration of message i) on an otherwise honest session; alterations: single-bit flips (first/last bit of every field and tag + random ones; ALL bits in the thorough tier), byte set, every truncation at field boundaries +-1 (ALL lengths in thorough), extension by 1/16/64, random multi-byte edits, replacement by every earlier message of the session, by the same-index message of a parallel session with all-different keys and (interactive patterns) of a parallel session with the same static keys and fresh ephemerals. The same alteration set is applied to messages with LARGE payloads (1000 .. 4 KiB+-1 .. 9000 .. 12 KiB .. 32 KiB .. the per-message maximum) for every base pattern on a 25519 and a P-256 suite. Alterations that leave the bytes unchanged are discarded. Oracle: after delivering the altered message and continuing honestly, it never happens that every call succeeded and both parties report finished; if the altered bytes touch an encrypted field (or the length changed while the payload is encrypted) the receiving read itself returns Err. Non-trivial = altered != original and the unaltered session completes; distinct by (name, suite, i, alteration)",
-    technique: "fault enumeration over message alterations with field maps from the reference model; proptest for random multi-byte edits",
+    technique: "fault enumeration over message alterations with field maps from the reference model; proptest for random multi-byte edits (+ libFuzzer target hs_alter in the thorough tier: coverage-guided XOR masks / cuts / extensions over the genuine message, judged by the same oracle)",
     assumptions: &[
         "for one-way patterns a complete message of a parallel session of the same initiator (same static keys, PSKs, prologue) is a genuine message in its own right and is not an alteration the responder could detect; that substitution is generated only for interactive patterns",
     ],
@@ -39,6 +39,9 @@ pub enum Alt {
     RelatedEphemeral,
     /// swap two 16-byte blocks of the message (block indices modulo the number of blocks)
     SwapBlocks(u16, u16),
+    /// byte-level alteration from the fuzzer: the genuine message cut by `trunc` bytes (modulo its
+    /// length), XORed with `mask`; mask bytes beyond the message are appended
+    Mask { trunc: u16, mask: Vec<u8> },
 }
 
 #[derive(Clone, Debug, Serialize, Deserialize)]
@@ -140,6 +143,21 @@ fn oracle(c: &Case, acc: &mut Acc) -> CaseResult {
         },
         Alt::ParallelOtherKeys => parallel(false)?,
         Alt::ParallelSameStatics => parallel(true)?,
+        Alt::Mask { trunc, mask } => {
+            let mut m = genuine.clone();
+            if *trunc > 0 && !m.is_empty() {
+                let t = *trunc as usize % m.len();
+                m.truncate(m.len() - t);
+            }
+            for (i, b) in mask.iter().enumerate() {
+                if i < m.len() {
+                    m[i] ^= *b;
+                } else if m.len() < 66_000 {
+                    m.push(*b);
+                }
+            }
+            m
+        },
         Alt::SwapBlocks(a, b) => {
             let mut m = genuine.clone();
             let nb = m.len() / 16;
@@ -469,6 +487,44 @@ pub fn run(ctx: &Ctx) {
     );
 }
 
+/// libFuzzer entry: bytes -> (handshake string, suite, message index, payload length, cut,
+/// XOR mask). An all-zero mask without a cut is the genuine message (discarded by the oracle).
+pub fn fuzz_case(data: &[u8]) -> Option<Case> {
+    if data.len() < 6 {
+        return None;
+    }
+    let names = some_hs_names(1);
+    let suites = all_suites();
+    let hs = names[data[0] as usize % names.len()].clone();
+    let suite = suites[data[1] as usize % suites.len()];
+    let mut spec = SessionSpec::simple(hs, suite, 0xF0_0000 + ((data[0] as u64) << 8) + data[1] as u64);
+    if ring_covers(suite) {
+        spec.backend_i = crate::instr::BACKENDS[(data[2] >> 4) as usize % 3];
+        spec.backend_r = crate::instr::BACKENDS[(data[2] >> 6) as usize % 3];
+    }
+    let idx = (data[2] & 0x0f) as usize % spec.n_msgs();
+    let plen = [0usize, 3, 16, 40, 300, 5000][data[3] as usize % 6];
+    let trunc = u16::from_le_bytes([data[4], data[5]]);
+    Some(Case { spec, idx, alt: Alt::Mask { trunc, mask: data[6..].to_vec() }, plen })
+}
+
+/// Err(message) only for a violation of the property (set-up problems are not the fuzzer's).
+pub fn fuzz_judge(data: &[u8]) -> Result<(), String> {
+    let Some(c) = fuzz_case(data) else { return Ok(()) };
+    let mut acc = Acc::default();
+    match oracle(&c, &mut acc) {
+        Err(f) if !f.setup => Err(format!("{}\ncase: {:?}", f.msg, c)),
+        _ => Ok(()),
+    }
+}
+
 pub fn replay(ctx: &Ctx, sub: &str, case: &serde_json::Value, origin: &str) -> bool {
+    if sub == "fuzz_bytes" {
+        let bytes: Vec<u8> = serde_json::from_value(case.clone()).unwrap_or_default();
+        return match fuzz_case(&bytes) {
+            Some(c) => ctx.replay_case::<Case, _>("random_edits", &serde_json::to_value(c).unwrap(), oracle, origin),
+            None => true,
+        };
+    }
     ctx.replay_case::<Case, _>(sub, case, oracle, origin)
 }
